@@ -3,6 +3,7 @@
 # without it, in a scratch worktree of /repo HEAD), then apply it to /repo, run the property's quick check
 # (must exit 1), and undo it. Results: seeded/RESULTS.tsv
 cd "$(dirname "$0")/.."
+REPO=${VERIF_REPO:-/repo}
 WT=/tmp/seedverify-$$
 git -C /repo worktree add --detach $WT HEAD >/dev/null 2>&1
 # optional argument: a grep -E pattern on the seed names; only those rows are refreshed
@@ -18,9 +19,9 @@ for d in seeded/*/; do
   if ! git -C $WT apply $d/patch.diff 2>/dev/null; then echo -e "$name\tPATCH-DOES-NOT-APPLY" | tee -a seeded/RESULTS.tsv; continue; fi
   PYTHONPATH=$WT timeout 900 /venv/bin/python $d/demo.py >/dev/null 2>&1; c1=$?
   base=$(/verif/tools/baseline.py $WT | head -1 | sed 's/.*regressed //')
-  git -C /repo apply $d/patch.diff
+  git -C $REPO apply $d/patch.diff
   out=$(./check $id quick 2>&1); rc=$?
-  git -C /repo checkout -- .
+  git -C $REPO checkout -- .
   first=$(echo "$out" | grep -A1 "^VIOLATION" | sed -n 2p | cut -c1-140)
   echo -e "$name\tdemo_clean=$c0\tdemo_seeded=$c1\tbaseline_regressed=$base\tcheck_exit=$rc\t$first" | tee -a seeded/RESULTS.tsv
 done
